@@ -29,3 +29,28 @@ def run_contracts(run, contracts, tier, cfg_factory=lib_cfg):
     for rep in reports:
         run.add_function_report(rep, by_qual[rep['function']], replayer=replay)
     return reports
+
+
+import re as _re
+_TAG = _re.compile(r'\.(C\d\d(?:\+C\d\d)*)\.')
+
+
+def belongs(prop, extra=()):
+    """obligation selector: untagged obligations (frames, invariants, callee preconditions) support every property
+    that uses the function; a clause tagged Cxx (or Cxx+Cyy) belongs to those properties only"""
+    def select(name):
+        m = _TAG.search(name)
+        if m is None:
+            return True
+        tags = m.group(1).split('+')
+        return prop in tags or any(t in tags for t in extra)
+    return select
+
+
+def run_contracts_sel(run, contracts, tier, prop, extra=(), cfg_factory=lib_cfg):
+    reports = verify_many(contracts, cfg_factory, timeout_ms=tier_timeout(tier))
+    by_qual = {c.qual: c for c in contracts}
+    sel = belongs(prop, extra)
+    for rep in reports:
+        run.add_function_report(rep, by_qual[rep['function']], replayer=replay, select=sel)
+    return reports
